@@ -85,9 +85,9 @@ def expect(scn_net: dict, hosts: list[str], port: int, mdns_dead: bool = False) 
                 open_ = True
                 return None, True, trace
             if isinstance(res, list):
-                for fam, a in res:
+                for fam, a, *rest in res:
                     if fam == 6:
-                        got.append([int(socket.AF_INET6), a, port, 0, 0])
+                        got.append([int(socket.AF_INET6), a, port, 0, rest[0] if rest else 0])
                     elif fam == 4:
                         got.append([int(socket.AF_INET), a, port, None, None])
         out += got
@@ -201,6 +201,8 @@ def gen_net(rng: random.Random, hosts: list[str]) -> dict:
                 # family 99: an address family the OS may return that is neither IPv4 nor IPv6 (skipped by the decision tree)
                 res: Any = [[pick(rng, [4, 6, 4, 4, 6, 4, 99]), None] for _ in range(rng.randint(1, 3))]
                 res = [[f, pick(rng, V6) if f == 6 else pick(rng, V4)] for f, _ in res]
+                # link-local IPv6 answers come with the interface as scope id (nss-mdns, /etc/hosts, an FQDN on that link)
+                res = [[6, pick(rng, ["fe80::1", "fe80::a:b"]), pick(rng, [2, 3, 12])] if f == 6 and rng.random() < 0.3 else [f, a] for f, a in res]
             else:
                 res = r
             net["resolver"][h] = {"result": res, "latency": pick(rng, [0.0, 0.01, 1.0, 10.0])}
